@@ -973,6 +973,29 @@ def _isclose(a: Any, b: Any, *, rel_tol: Any = 1e-09, abs_tol: Any = 0.0) -> Any
     return SBool(z3.Or(ta == tb, diff <= ab(tr * tb), diff <= ab(tr * ta), diff <= tt))
 
 
+def _gcd(*args: Any) -> Any:
+    """math.gcd with symbolic ints: g >= 0, g divides both, and g is an integer combination of them
+    (Bezout), which characterises the greatest common divisor exactly."""
+    if not any(is_sym(a) for a in args):
+        return _math.gcd(*args)
+    for a in args:
+        if is_sym(a) and not isinstance(a, SInt):
+            raise TypeError(f"'{kind_of(a)}' object cannot be interpreted as an integer")
+    c = ctx()
+    c.stubs_used.add("math.gcd of symbolic ints: divisibility + Bezout identity")
+
+    def pair(a: Any, b: Any) -> Any:
+        ta, tb = term(a), term(b)
+        g, ka, kb, x, y = (c.fresh(n, "int") for n in ("gcd", "gcd_ka", "gcd_kb", "gcd_x", "gcd_y"))
+        c.axiom(z3.And(g >= 0, ta == g * ka, tb == g * kb, ta * x + tb * y == g))
+        return SInt(g)
+
+    acc: Any = 0
+    for a in args:
+        acc = pair(acc, a) if (is_sym(acc) or is_sym(a)) else _math.gcd(acc, a)
+    return acc
+
+
 def _isqrt(n: Any) -> Any:
     """math.isqrt of a symbolic int: the r >= 0 with r*r <= n < (r+1)*(r+1); ValueError below zero."""
     if not isinstance(n, SInt):
@@ -1013,6 +1036,7 @@ class MathShim:
         self.ceil = lambda x: x.__ceil__() if is_sym(x) else _math.ceil(x)
         self.isclose = _isclose
         self.isqrt = lambda n: _isqrt(n) if is_sym(n) else _math.isqrt(n)
+        self.gcd = _gcd
         self.isfinite = lambda x: True if is_sym(x) else _math.isfinite(x)   # proxies range over the reals
         self.isnan = lambda x: False if is_sym(x) else _math.isnan(x)
         self.isinf = lambda x: False if is_sym(x) else _math.isinf(x)
